@@ -107,7 +107,17 @@ func runC35(c *Ctx) []Obligation {
 			Barrier: []string{relayValidate + `$`}, Target: CallTo(`\.Store\(|\.Execute\(|PrivateKey\.Sign\(`), TargetMustExist: true,
 			Why: "every served relay passed Relay.Validate against this node's keepers and hosted chains"},
 	}
-	return c.Rows(rows)
+	out := c.Rows(rows)
+	// the session a relay is judged against is the one derived from the application key exactly as spelled in
+	// the token (the session key hashes that string): the membership checks compare with that exact spelling
+	out = append(out, c.Rows([]Row{
+		{Prop: P, ID: "session.app-key-exact-spelling", Fn: "(x/pocketcore/types.Session).Validate",
+			Assume: []Lit{F(`^eq\(invoke crypto\.PublicKey\.RawString\(invoke x/apps/exported\.ApplicationI\.GetPublicKey\(app\)\), s\.SessionHeader\.ApplicationPubKey\)$`)}, Target: Success(),
+			Why: "a header whose application key is not, character for character, the staked application's canonical key is refused (a case-folded or otherwise re-spelled key would name a different session with different servicers)"},
+		{Prop: P, ID: "session.node-must-be-member", Fn: "(x/pocketcore/types.Session).Validate",
+			Assume: []Lit{F(`^\(x/pocketcore/types\.SessionNodes\)\.Contains\(s\.SessionNodes, node\)$`)}, Target: Success(), Why: "a node that is not in the session does not serve it"},
+	})...)
+	return out
 }
 
 func runC34(c *Ctx) []Obligation {
